@@ -22,7 +22,7 @@ ASSUMPTIONS = [
 F = ["fb", "fc", "fa"]  # first seen != sorted
 G = ["g2", "g1"]
 H = ["hd", "hb", "ha", "hc"]
-K = [30, 10, 20]
+K = [10, -2, 9]  # string order differs from numeric order
 YC = ["u", "w", "v"]
 VARIANTS = ["str", "cat-ord", "ord-cat"]
 _FR = {}
